@@ -294,6 +294,12 @@ func (ww *conversionVisitor) visitOneofNode(node *sourcewalk.OneofNode) {
 		ww.addError(node.Source, err)
 	}
 
+	if len(message.descriptor.Field) == 0 {
+		// protobuf has no empty oneof: a oneof schema without options is a
+		// message without members
+		message.descriptor.OneofDecl = nil
+	}
+
 	if node.HasNestedSchemas() {
 		subContext := ww.inMessage(message)
 		if err := node.RangeNestedSchemas(walkerSchemaVisitor(subContext)); err != nil {
